@@ -1,4 +1,5 @@
 import GixModel.Model.C43
+import GixModel.Basic.ExceptDec
 /-
 C43 — helper lemmas, part 1: statistics, binary test, eol decisions, attribute digest.
 The correspondence between the Rust-side types and the git-side types is given by the `toGit`
@@ -6,7 +7,6 @@ functions below (they are the reading of one vocabulary in terms of the other an
 statements of Props/C43).
 -/
 set_option linter.unusedSimpArgs false
-deriving instance DecidableEq for Except
 namespace GixModel.C43
 open GixModel GixModel.C43Scan
 open GixModel.Spec.C43 (TextStat CrlfAction Eol GitConfig countByte gatherLoop gatherStats convertIsBinary
